@@ -173,7 +173,7 @@ func vxNewFixRole(cfg vxCfg, role string) *vxFix {
 	}
 	configuration.CurrentConfig = configuration.Configuration{
 		RpmRollingWindowSize:           w,
-		TempRollingWindowSize:          1,
+		TempRollingWindowSize:          997, // deliberately different from every rpm window in use (wrong-option slips must show)
 		RpmPollingRate:                 time.Second,
 		TempSensorPollingRate:          200 * time.Millisecond,
 		ControllerAdjustmentTickRate:   200 * time.Millisecond,
@@ -349,3 +349,5 @@ func vxGuard(fn func()) (p string) {
 }
 
 var _ = mc.Hash
+
+func registerCurve(c *vxCurve) { curves.RegisterSpeedCurve(c) }
